@@ -1,4 +1,4 @@
 SPECIFICATION Spec
 CONSTANTS Slack = 6
-INVARIANTS C20_NoPanicRow C20_NoGoroutineLeakRow C20_NoConnectionLeakRow
+INVARIANTS C20_NoPanicRow C20_NoGoroutineLeakRow C20_NoConnectionLeakRow C20_NoLeakOnErrorPath
 CHECK_DEADLOCK FALSE
